@@ -822,7 +822,7 @@ def run(ctx):
     for n in range(1, depth + 1):
         for seq in itertools.product(range(len(alpha)), repeat=n):
             cases.append(("exhaustive-%d" % n, [["new"], ["new"]] + [alpha[i] for i in seq]))
-    cases += random_cases(ctx, ctx.n(1500, 20000), 26)
+    cases += random_cases(ctx, ctx.n(1000, 20000), 26)
     run_cases(ctx, cases, "stream")
 
 
